@@ -258,10 +258,13 @@ class Runtime:
     def restore(self, o, cur):
         return cur if o is UNDEF else o
 
-    def phi(self, t, a, b, name='?'):
+    def phi(self, t, a, b, name='?', site='?'):
         if not isinstance(t, SBool):
             return a if t else b
-        return self.merge(t.term, a, b, name)
+        try:
+            return self.merge(t.term, a, b, name)
+        except MergeAbort as e:
+            raise MergeAbort(site, str(e))
 
     def merge(self, g, a, b, name='?'):
         if a is b:
